@@ -343,8 +343,12 @@ func makeVaryHash(vary map[string]string) uint64 {
 	keys = slices.AppendSeq(keys, maps.Keys(vary))
 	slices.Sort(keys)
 	for _, k := range keys {
+		// Names and values are delimited (neither can contain NUL), so that
+		// {"X-A": "1", "X-B": "2"} and {"X-A": "1X-B2"} hash differently.
 		_, _ = h.Write([]byte(k))
+		_, _ = h.Write([]byte{0})
 		_, _ = h.Write([]byte(vary[k]))
+		_, _ = h.Write([]byte{0})
 	}
 	return h.Sum64()
 }
